@@ -590,9 +590,24 @@ TYPED = [
 ]
 
 
+def _num_of(x, t):
+  return x if x is None or not isinstance(x, str) else {'int': lambda v: int(float(v)), 'float': float}[t](x)
+
+
+TYPED_INCONSISTENT = [
+    # numeric strings that type= turns into limits the statement lists as inconsistent
+    (['5', '1', None, None], 'int'), (['2.5', '1.5', None, None], 'float'), (['1', '5', '0', None], 'int'), (['1', '5', None, '7'], 'int'),
+    (['1', '9', '7', '3'], 'int'), (['10', '9', None, None], 'int'), (['1e3', '1e2', None, None], 'float'), ([5, '1', None, None], 'int'),
+]
+
+
 def typed_specs():
   for a, t in TYPED:
     yield {'k': 'in_range', 'a': [enc(x) for x in a], 't': t, 'ctor': 'accept'}
+  for a, t in TYPED_INCONSISTENT:
+    yield {'k': 'in_range', 'a': [enc(x) for x in a], 't': t, 'ctor': 'reject'}
+    for style in '{%':
+      yield {'k': 'in_range_with_args', 'a': [enc(_num_of(x, t)) for x in a], 't': t, 'style': style, 'ctor': 'reject'}
     if t and all(x is None or isinstance(x, (int, float)) and not isinstance(x, bool) for x in a):
       pass
   for a, t in [([1, 5, None, None], 'int'), ([-2, 8, 0, 5], 'int'), ([1.5, 2.5, None, None], 'float'),
